@@ -85,10 +85,30 @@ Theorem C15_badness_nonincreasing_astep : forall s w a g eps anew,
 Proof. exact badness_nonincreasing_astep. Qed.
 Print Assumptions C15_badness_nonincreasing_astep.
 
-(* FULL statement not proved here: badness_nonincreasing for gstep without smoothing
-     forall s w a g gnew, gstep s w a g None = Some gnew -> (shapes, w >= 0) -> badness s w a gnew None <= badness s w a g None
-   (needs the regrouping of chi2_mat by columns); the column-wise optimality it follows from is
-   C15_gstep_optimal_colwise, and the monotone badness() sequence is checked on the real code on every run. *)
+(* ... nor in a component update without smoothing (epsilon None, 0 or negative): chi-square regrouped by columns,
+   every column minimised.  With smoothing the code updates all columns against the OLD neighbours (Jacobi style), for
+   which no monotonicity is claimed. *)
+Theorem C15_badness_nonincreasing_gstep : forall s w a g eps gnew,
+  gstep s w a g eps = Some gnew -> eps_active eps = None ->
+  (0 < length s)%nat -> (0 < ncols s)%nat ->
+  Forall (fun r => length r = ncols s) s -> Forall (fun r => length r = ncols s) w ->
+  length w = length s -> length a = length s -> rows_len (ncols a) a ->
+  length g = ncols a -> ncols g = ncols s ->
+  Forall (Forall (fun v => 0 <= v)) w ->
+  chi2_mat s w a gnew <= chi2_mat s w a g.
+Proof. exact badness_nonincreasing_gstep. Qed.
+Print Assumptions C15_badness_nonincreasing_gstep.
+
+Theorem C15_badness_nonincreasing_gstep_None : forall s w a g gnew,
+  gstep s w a g None = Some gnew ->
+  (0 < length s)%nat -> (0 < ncols s)%nat ->
+  Forall (fun r => length r = ncols s) s -> Forall (fun r => length r = ncols s) w ->
+  length w = length s -> length a = length s -> rows_len (ncols a) a ->
+  length g = ncols a -> ncols g = ncols s ->
+  Forall (Forall (fun v => 0 <= v)) w ->
+  badness s w a gnew None <= badness s w a g None.
+Proof. exact badness_nonincreasing_gstep_None. Qed.
+Print Assumptions C15_badness_nonincreasing_gstep_None.
 
 (* non-negative mode: the multiplicative updates keep non-negative factors non-negative *)
 Theorem C15_astepnn_nonneg : forall s w a g, mnn s -> mnn w -> mnn a -> mnn g -> mnn (astepnn s w a g).
@@ -133,11 +153,11 @@ Theorem C15_descending_sound : forall v, descending v = true ->
 Proof. exact descending_sound. Qed.
 Print Assumptions C15_descending_sound.
 
-(* pca_solve's acoeff: a vector accepted EXACTLY by the projection test is the weighted least-squares optimum
-   (instance of the same theorem with the implementation's own eigenspectra as design matrix) *)
-Theorem C15_projection_optimal : forall m D x, wf m D -> wls_solve m D = Some x ->
-  length x = m /\ forall z, length z = m -> chi2 D x <= chi2 D z.
-Proof. exact wls_solve_optimal. Qed.
+(* the normal-equation clause of chi2_ok / astep_ok / gstep_ok / pca_ok (pca_solve's acoeff against the
+   implementation's own eigenspectra): a vector accepted with tolerance 0 is the weighted least-squares optimum *)
+Theorem C15_projection_optimal : forall m D sol, wf m D -> grad_small 0 m D sol = true ->
+  length sol = m /\ (forall d, gdot D sol d == 0) /\ forall z, length z = m -> chi2 D sol <= chi2 D z.
+Proof. exact grad_small_exact_optimal. Qed.
 Print Assumptions C15_projection_optimal.
 
 (* ---------------------------------------------------------------- non-vacuity witnesses *)
